@@ -77,7 +77,9 @@ Examples:
 func init() {
 	saveCmd.Flags().StringSliceP("keywords", "k", nil, "Keywords for the command (comma-separated)")
 	saveCmd.Flags().StringP("category", "c", "", "Category/niche for the command")
-	saveCmd.Flags().StringSliceP("platforms", "p", nil, "Supported platforms (comma-separated)")
+	// No shorthand: -p is taken by the persistent --platform flag of the root command,
+	// and cobra panics at start-up when a local flag redefines a persistent shorthand.
+	saveCmd.Flags().StringSlice("platforms", nil, "Supported platforms (comma-separated)")
 	saveCmd.Flags().BoolP("pipeline", "", false, "Mark as a pipeline command")
 }
 
